@@ -28,6 +28,12 @@
 //!                                              the same with Pow::Dummy + permanent_difficulty_in_dummy
 //!   genesis <reward> <compact> <len> <T> <on> <od> -> fail | <base> <rem> <hr hex> <len> <compact>
 //!                                              build_genesis_epoch_ext
+//!   uadd|usub|umul|udiv|urem <a> <b>        -> <hex> | fail      numext U256 operators (panic = fail)
+//!   ugcd <a> <b> -> <hex>   ucmp <a> <b> -> lt|eq|gt   ushl|ushr <a> <k> -> <hex>
+//!   ulz|utz|ulow <a>                        -> leading_zeros / trailing_zeros / lowest limb (decimal)
+//!   rnew <n> <d> | rmul|rdiv <an> <ad> <bn> <bd> | rmulu|raddu|rsatsub <an> <ad> <u>
+//!                                           -> <numer>/<denom> (decimal) | fail     ckb_rational::RationalU256 on
+//!                                              raw (unreduced) operands;  rgt -> 0|1|fail;  rfloor <an> <ad> -> <hex>|fail
 use crate::common::*;
 use ckb_chain_spec::consensus::{Consensus, ConsensusBuilder};
 use ckb_pow::{EaglesongPowEngine, PowEngine};
@@ -773,6 +779,262 @@ fn epoch_sums(out: &mut Out, start: u64, len: u64, primary: u64, sec: u64) {
     }
 }
 
+// --- numext U256 operations and ckb_rational::RationalU256 operations, one by one -----------------
+
+fn opt_hx(r: Option<U256>) -> String {
+    r.map(|v| hx(&v)).unwrap_or_else(|| "fail".into())
+}
+
+/// Euclid with `%` (independent of the Stein implementation under test)
+fn euclid(a: &U256, b: &U256) -> U256 {
+    let (mut a, mut b) = (a.clone(), b.clone());
+    while !b.is_zero() {
+        let r = &a % &b;
+        a = b;
+        b = r;
+    }
+    a
+}
+
+fn op_u2(out: &mut Out, op: &str, a: &U256, b: &U256) {
+    let line = format!("{} {} {}", op, hx(a), hx(b));
+    let (ba, bb) = (big(a), big(b));
+    let lim = U1024::one() << 256u32;
+    let ans = match op {
+        "uadd" => {
+            let r = quiet(|| a + b);
+            if r.is_some() != (&ba + &bb < lim) || r.as_ref().map(|r| big(r) != &ba + &bb).unwrap_or(false) {
+                out.oracle_fail("u256-add", &line);
+            }
+            opt_hx(r)
+        }
+        "usub" => {
+            let r = quiet(|| a - b);
+            if r.is_some() != (ba >= bb) || r.as_ref().map(|r| big(r) + &bb != ba).unwrap_or(false) {
+                out.oracle_fail("u256-sub", &line);
+            }
+            opt_hx(r)
+        }
+        "umul" => {
+            let r = quiet(|| a * b);
+            if r.is_some() != (&ba * &bb < lim) || r.as_ref().map(|r| big(r) != &ba * &bb).unwrap_or(false) {
+                out.oracle_fail("u256-mul", &line);
+            }
+            opt_hx(r)
+        }
+        "udiv" => {
+            let r = quiet(|| a / b);
+            if r.is_some() == b.is_zero() || r.as_ref().map(|q| big(q) * &bb > ba || (big(q) + U1024::one()) * &bb <= ba).unwrap_or(false) {
+                out.oracle_fail("u256-div", &line);
+            }
+            opt_hx(r)
+        }
+        "urem" => {
+            let r = quiet(|| a % b);
+            if r.is_some() == b.is_zero() || r.as_ref().map(|m| big(m) >= bb).unwrap_or(false) {
+                out.oracle_fail("u256-rem", &line);
+            }
+            opt_hx(r)
+        }
+        "ugcd" => {
+            let g = a.gcd(b);
+            if g != euclid(a, b) {
+                out.oracle_fail("u256-gcd", &line);
+            }
+            hx(&g)
+        }
+        "ucmp" => match a.cmp(b) {
+            std::cmp::Ordering::Less => "lt".into(),
+            std::cmp::Ordering::Equal => "eq".into(),
+            std::cmp::Ordering::Greater => "gt".into(),
+        },
+        other => panic!("unknown op {other}"),
+    };
+    out.op(&line, &ans);
+    out.count("u256-op");
+}
+
+fn op_ushift(out: &mut Out, op: &str, a: &U256, k: u32) {
+    let line = format!("{} {} {}", op, hx(a), k);
+    let r = if op == "ushl" { a << k } else { a >> k };
+    let exact = if k >= 512 {
+        U1024::zero()
+    } else if op == "ushl" {
+        (big(a) << k) & ((U1024::one() << 256u32) - U1024::one())
+    } else {
+        big(a) >> k
+    };
+    if big(&r) != exact {
+        out.oracle_fail("u256-shift", &line);
+    }
+    out.op(&line, &hx(&r));
+    out.count("u256-op");
+}
+
+fn op_u1(out: &mut Out, op: &str, a: &U256) {
+    let line = format!("{} {}", op, hx(a));
+    let ans = match op {
+        "ulz" => a.leading_zeros().to_string(),
+        "utz" => a.trailing_zeros().to_string(),
+        "ulow" => a.0[0].to_string(),
+        other => panic!("unknown op {other}"),
+    };
+    out.op(&line, &ans);
+    out.count("u256-op");
+}
+
+fn rat_str(r: Option<RationalU256>) -> String {
+    // Display of RationalU256 is "<numer>/<denom>" in decimal
+    r.map(|r| format!("{}", r)).unwrap_or_else(|| "fail".into())
+}
+
+/// `RationalU256` operations on raw (unreduced) operands: `rnew n d`, `rmul an ad bn bd`, `rdiv an ad bn bd`,
+/// `rmulu an ad u`, `raddu an ad u`, `rsatsub an ad u`, `rgt an ad bn bd`, `rfloor an ad`
+fn op_rat(out: &mut Out, op: &str, v: &[U256]) {
+    let line = format!("{} {}", op, v.iter().map(hx).collect::<Vec<_>>().join(" "));
+    let raw = |i: usize| RationalU256::new_raw(v[i].clone(), v[i + 1].clone());
+    let ans = match op {
+        "rnew" => rat_str(quiet(|| RationalU256::new(v[0].clone(), v[1].clone()))),
+        "rmul" => rat_str(quiet(|| &raw(0) * &raw(2))),
+        "rdiv" => rat_str(quiet(|| &raw(0) / &raw(2))),
+        "rmulu" => rat_str(quiet(|| &raw(0) * &v[2])),
+        "raddu" => rat_str(quiet(|| &raw(0) + &v[2])),
+        "rsatsub" => rat_str(quiet(|| raw(0).saturating_sub_u256(v[2].clone()))),
+        "rgt" => quiet(|| raw(0) > raw(2)).map(|b| if b { "1".to_string() } else { "0".to_string() }).unwrap_or_else(|| "fail".into()),
+        "rfloor" => opt_hx(quiet(|| raw(0).into_u256())),
+        other => panic!("unknown op {other}"),
+    };
+    // value oracle (exact, wide): a returned product / quotient is the exact rational
+    if let Some((n, d)) = ans.split_once('/') {
+        let (n, d) = (U1024::from_dec_str(n).expect("dec"), U1024::from_dec_str(d).expect("dec"));
+        let b = |i: usize| big(&v[i]);
+        let ok = match op {
+            "rnew" => &n * b(1) == &d * b(0),
+            "rmul" => &n * b(1) * b(3) == &d * b(0) * b(2),
+            "rdiv" => &n * b(1) * b(2) == &d * b(0) * b(3),
+            "rmulu" => &n * b(1) == &d * b(0) * b(2),
+            "raddu" => &n * b(1) == &d * (b(0) + b(1) * b(2)),
+            "rsatsub" => {
+                if b(0) < b(1) * b(2) { n.is_zero() } else { &n * b(1) == &d * (b(0) - b(1) * b(2)) }
+            }
+            _ => true,
+        };
+        if !ok {
+            out.oracle_fail("rational-value", &format!("{line} => {ans}"));
+        }
+    }
+    out.op(&line, &ans);
+    out.count(&format!("rat-{op}"));
+}
+
+/// boundary-biased U256: zero, one, powers of two and neighbours, limb boundaries, all-ones, random lengths
+fn gen_u256_edge(rng: &mut Rng) -> U256 {
+    match rng.below(10) {
+        0 => U256::zero(),
+        1 => U256::one(),
+        2 => U256::max_value(),
+        3 => U256::one() << (rng.below(256) as u32),
+        4 => (U256::one() << (rng.range(1, 255) as u32)) - U256::one(),
+        5 => (U256::one() << (*rng.pick(&[64u32, 128, 192]))) - U256::from(rng.below(3)) + U256::one(),
+        6 => U256::from(rand_u64_biased(rng)),
+        _ => rand_u256(rng),
+    }
+}
+
+fn gen_uops(out: &mut Out, rng: &mut Rng, k: u64) {
+    out.begin_case("u256-ops");
+    for _ in 0..600 * k {
+        let a = gen_u256_edge(rng);
+        let b = match rng.below(6) {
+            0 => a.clone(),
+            // products / sums around 2^256: b = floor(MAX / a) and neighbours
+            1 if !a.is_zero() => {
+                let q = U256::max_value() / &a;
+                match rng.below(3) {
+                    0 => q,
+                    1 => q.checked_add(&U256::one()).unwrap_or_else(U256::max_value),
+                    _ => q.checked_sub(&U256::one()).unwrap_or_else(U256::zero),
+                }
+            }
+            2 => {
+                let c = U256::max_value() - &a;
+                match rng.below(3) {
+                    0 => c,
+                    1 => c.checked_add(&U256::one()).unwrap_or_else(U256::max_value),
+                    _ => c.checked_sub(&U256::one()).unwrap_or_else(U256::zero),
+                }
+            }
+            _ => gen_u256_edge(rng),
+        };
+        for op in ["uadd", "usub", "umul", "udiv", "urem", "ucmp"] {
+            op_u2(out, op, &a, &b);
+        }
+        for op in ["ulz", "utz", "ulow"] {
+            op_u1(out, op, &a);
+        }
+        let kk = match rng.below(8) {
+            0 => 0,
+            1 => *rng.pick(&[1u32, 7, 8, 63, 64, 65, 127, 128, 129, 191, 192, 193, 255]),
+            2 => *rng.pick(&[256u32, 257, 511, 2016, 4096]),
+            _ => rng.below(256) as u32,
+        };
+        op_ushift(out, "ushl", &a, kk);
+        op_ushift(out, "ushr", &a, kk);
+    }
+    out.begin_case("u256-gcd");
+    for _ in 0..500 * k {
+        // operands with a planted common factor (odd part and power of two), and unrelated ones
+        let (a, b) = match rng.below(4) {
+            0 => (gen_u256_edge(rng), gen_u256_edge(rng)),
+            _ => {
+                let gbits = rng.range(1, 100);
+                let g = rand_u256(rng) >> (256 - gbits as u32).min(255);
+                let x = rand_u256(rng) >> (rng.range(100, 250) as u32);
+                let y = rand_u256(rng) >> (rng.range(100, 250) as u32);
+                let sh1 = rng.below(40) as u32;
+                let sh2 = rng.below(40) as u32;
+                let a = quiet(|| (&g * &x) << sh1).unwrap_or_else(U256::one);
+                let b = quiet(|| (&g * &y) << sh2).unwrap_or_else(U256::one);
+                (a, b)
+            }
+        };
+        op_u2(out, "ugcd", &a, &b);
+    }
+    out.begin_case("rational-ops");
+    for _ in 0..400 * k {
+        // raw operands: small/large, sharing factors, zero numerators and (rarely) zero denominators
+        let small = |rng: &mut Rng| -> U256 {
+            match rng.below(6) {
+                0 => U256::zero(),
+                1 => U256::one(),
+                2 => U256::from(rng.range(2, 2000)),
+                3 => U256::from(rand_u64_biased(rng)),
+                4 => rand_u256(rng) >> (rng.range(100, 200) as u32),
+                _ => gen_u256_edge(rng),
+            }
+        };
+        let den = |rng: &mut Rng| -> U256 {
+            let d = small(rng);
+            if d.is_zero() && !rng.chance(1, 8) { U256::one() } else { d }
+        };
+        let (an, ad, bn, bd, u) = (small(rng), den(rng), small(rng), den(rng), small(rng));
+        op_rat(out, "rnew", &[an.clone(), ad.clone()]);
+        op_rat(out, "rmul", &[an.clone(), ad.clone(), bn.clone(), bd.clone()]);
+        // the gcd-before-multiply reductions: operands sharing a factor across the diagonal
+        op_rat(out, "rmul", &[an.clone(), ad.clone(), ad.clone(), an.clone()]);
+        op_rat(out, "rdiv", &[an.clone(), ad.clone(), bn.clone(), bd.clone()]);
+        op_rat(out, "rdiv", &[an.clone(), ad.clone(), an.clone(), bd.clone()]);
+        op_rat(out, "rmulu", &[an.clone(), ad.clone(), u.clone()]);
+        op_rat(out, "rmulu", &[an.clone(), ad.clone(), ad.clone()]);
+        op_rat(out, "raddu", &[an.clone(), ad.clone(), u.clone()]);
+        op_rat(out, "rsatsub", &[an.clone(), ad.clone(), u.clone()]);
+        op_rat(out, "rsatsub", &[an.clone(), ad.clone(), U256::one()]);
+        op_rat(out, "rgt", &[an.clone(), ad.clone(), bn.clone(), bd.clone()]);
+        op_rat(out, "rgt", &[an.clone(), ad.clone(), an.clone(), ad.clone()]);
+        op_rat(out, "rfloor", &[an.clone(), ad.clone()]);
+    }
+}
+
 fn exec_line(out: &mut Out, ctx: &mut Ctx, line: &str) {
     let t: Vec<&str> = line.split_whitespace().collect();
     match t[0] {
@@ -803,6 +1065,13 @@ fn exec_line(out: &mut Out, ctx: &mut Ctx, line: &str) {
         "next" => do_next(out, ctx, &NextIn::parse(&t)),
         "nextperm" => do_nextperm(out, ctx, parse_u64(t[1]), parse_u64(t[2]), parse_u64(t[3]), parse_u64(t[4]), parse_u64(t[5]), parse_u64(t[6]), &parse_u256(t[7]), parse_u64(t[8]), parse_u64(t[9]), parse_u64(t[10]), parse_u64(t[11]) as u32),
         "genesis" => do_genesis(out, parse_u64(t[1]), parse_u64(t[2]) as u32, parse_u64(t[3]), parse_u64(t[4]), parse_u64(t[5]) as u32, parse_u64(t[6]) as u32),
+        "uadd" | "usub" | "umul" | "udiv" | "urem" | "ugcd" | "ucmp" => op_u2(out, t[0], &parse_u256(t[1]), &parse_u256(t[2])),
+        "ushl" | "ushr" => op_ushift(out, t[0], &parse_u256(t[1]), parse_u64(t[2]) as u32),
+        "ulz" | "utz" | "ulow" => op_u1(out, t[0], &parse_u256(t[1])),
+        "rnew" | "rmul" | "rdiv" | "rmulu" | "raddu" | "rsatsub" | "rgt" | "rfloor" => {
+            let v: Vec<U256> = t[1..].iter().map(|x| parse_u256(x)).collect();
+            op_rat(out, t[0], &v)
+        }
         other => panic!("unknown op {other}"),
     }
 }
@@ -857,6 +1126,9 @@ pub fn run(opts: &Opts) {
 
     out.begin_case("consts");
     op_consts(&mut out, &ctx);
+
+    // --- the U256 / RationalU256 layer, operation by operation ------------------------------
+    gen_uops(&mut out, &mut rng, k);
 
     // --- compact / target / difficulty -----------------------------------------------------
     out.begin_case("compact-structured");
